@@ -634,7 +634,7 @@ def resample_cases(rng, tier, variants):
                 % (C.qss(cvs), ex.coq(), C.lst([SCH[s] for s in schemes]), C.qss(mesh),
                    C.qs(np.asarray(y).ravel().tolist())))
         cs.add(term, {'op': 'Resampling', 'domain': [lo, hi, shape], 'range_shape': shape2, 'interp': interp,
-                      'callable': ex.src(True), 'out_arg': use_out},
+                      'callable': ex.src(True), 'out_arg': use_out, 'schemes': schemes, 'family': 'resample'},
                ('res', str(lo), str(hi), tuple(shape), tuple(shape2), str(interp), ex.src(True)))
         # linear_deform: template values at points + displacement (point-array convention)
         from odl.deform import linear_deform
@@ -653,7 +653,9 @@ def resample_cases(rng, tier, variants):
         out = 'OVals %s []' % C.qs(np.asarray(r).ravel().tolist())
         term2 = case_term('per_axis', schemes, cvs, 'float64', vals, [], 'array', pts, [], variants, out)
         cs2.add(term2, {'op': 'linear_deform', 'domain': [lo, hi, shape], 'interp': interp, 'values': vals,
-                        'out_arg': use_out2},
+                        'out_arg': use_out2, 'kind': 'per_axis', 'schemes': schemes, 'cvs': cvs, 'dtype': 'float64',
+                        'imag': [], 'conv': 'array', 'points': pts, 'mesh': [], 'via_deform': True,
+                        'displacement': [dk.ravel().tolist() for dk in disp]},
                 ('deform', str(lo), str(hi), tuple(shape), str(interp), tuple(vals), str(pts)))
     return [cs, cs2]
 
@@ -977,6 +979,30 @@ def _interp_snippet(desc):
     return snip
 
 
+def _resample_snippet(desc):
+    lo, hi, shape = desc['domain']
+    return REF + ('dom = odl.uniform_discr(%r, %r, %r); ran = odl.uniform_discr(%r, %r, %r)\n'
+                  'x = dom.element(lambda x: %s)\n'
+                  'observed = [complex(v) for v in odl.Resampling(dom, ran, %r)(x).asarray().ravel()]\n'
+                  'cvs = [c.tolist() for c in dom.grid.coord_vectors]\n'
+                  'expected = [ref_interp(%r, cvs, x.asarray(), p) for p in ran.points()]\n'
+                  'ok = close(observed, expected, 1e-12)\n'
+                  % (lo, hi, shape, lo, hi, desc['range_shape'], desc['callable'], desc['interp'], desc['schemes']))
+
+
+def _deform_snippet(desc):
+    lo, hi, shape = desc['domain']
+    return REF + ('from odl.deform import linear_deform\n'
+                  'dom = odl.uniform_discr(%r, %r, %r)\nt = dom.element(np.array(%r).reshape(%r))\n'
+                  'disp = dom.tangent_bundle.element([np.array(v).reshape(%r) for v in %r])\n'
+                  'observed = [complex(v) for v in np.asarray(linear_deform(t, disp, interp=%r)).ravel()]\n'
+                  'cvs = [c.tolist() for c in dom.grid.coord_vectors]\n'
+                  'expected = [ref_interp(%r, cvs, t.asarray(), p) for p in %r]\n'
+                  'ok = close(observed, expected, 1e-12)\n'
+                  % (lo, hi, shape, desc['values'], tuple(shape), tuple(shape), desc['displacement'], desc['interp'],
+                     desc['schemes'], desc['points']))
+
+
 def search(rng, broken):
     """A correspondence case failed: evaluate the PROPERTY (textbook reference, no model) on that very
     input and return a failing probe with a replay, if it fails."""
@@ -987,6 +1013,12 @@ def search(rng, broken):
         if desc.get('family') == 'sampling':
             snip = _sampling_snippet(desc)
             key = 'sampling-%s-%s-%s' % (desc['flavour'], desc['dtype'], desc['mode'])
+        elif desc.get('family') == 'resample':
+            snip = _resample_snippet(desc)
+            key = 'resampling-textbook'
+        elif desc.get('via_deform'):
+            snip = _deform_snippet(desc)
+            key = 'linear-deform-textbook'
         elif 'kind' in desc and 'cvs' in desc:
             snip = _interp_snippet(desc)
             key = 'textbook-%s-d%d' % (desc['kind'].replace('_', ''), len(desc['cvs']))
